@@ -43,6 +43,9 @@ THEOREMS = [
     "Verif.C14.valueError_iff_start_outside",
     "Verif.C14.failed_fit_no_change",
     "Verif.C14.nothing_to_fit",
+    "Verif.C14.defaults_first_occurrence",
+    "Verif.C14.defaults_first_occurrence_aligned",
+    "Verif.C14.jacobian_scatter_correct",
     "Verif.C14.collision_witness",
     "Verif.C14.add_data_reorder_witness",
     "Verif.C14.defaults_misaligned_witness",
